@@ -155,6 +155,8 @@ for m in re.finditer(r'impl\s+(\w+)\s*\{', alltext):
 def cs(s):
     return '"' + s.replace('"', '""') + '"'
 
+unordered = []
+cur_field = ['']
 def ty_term(t):
     t = t.replace('super::', '').replace('crate::', '')
     if t in ('String',):
@@ -171,9 +173,12 @@ def ty_term(t):
     m = re.match(r'^Vec<(.+)>$', t)
     if m:
         return '(FVec %s)' % ty_term(m.group(1))
-    m = re.match(r'^BTreeMap<Uuid,(.+)>$', t)
+    m = re.match(r'^(BTreeMap|HashMap)<Uuid,(.+)>$', t)
     if m:
-        return '(FMap %s)' % ty_term(m.group(1))
+        if m.group(1) == 'HashMap':
+            # same JSON shape, but the order of the keys in the text is the hasher's: recorded for C04_maps_ordered
+            unordered.append(cur_field[0])
+        return '(FMap %s)' % ty_term(m.group(2))
     m = re.match(r'^\((.+)\)$', t)
     if m:
         return '(FTuple [%s])' % '; '.join(ty_term(x.strip()) for x in split_top(m.group(1)))
@@ -214,7 +219,7 @@ def dval(expr):
     return 'VOther'
 
 SKIPS = {'String::is_empty': 'SkEmptyStr', 'Vec::is_empty': 'SkEmptyVec', 'Option::is_none': 'SkNone', 'is_default': 'SkDefault',
-         'BTreeMap::is_empty': 'SkEmptyMap'}
+         'BTreeMap::is_empty': 'SkEmptyMap', 'HashMap::is_empty': 'SkEmptyMap'}
 
 def skip_term(name):
     if name in SKIPS:
@@ -251,6 +256,7 @@ def dflt_term(attrs):
 
 def field_term(f):
     name, ty, attrs = f
+    cur_field[0] = name
     return '(mkFd %s %s %s %s %s)' % (cs(attrs.get('rename', name) if isinstance(attrs.get('rename'), str) else name), ty_term(ty), dflt_term(attrs),
                                       skip_term(attrs['skip_serializing_if']) if 'skip_serializing_if' in attrs else 'SkNever',
                                       'true' if attrs.get('flatten') else 'false')
@@ -298,6 +304,8 @@ out.append('Definition repo_schema : list sdesc := [\n' + ';\n'.join(items) + '\
 out.append('(* unit enums: (name, variants, default variant) *)')
 out.append('Definition repo_enums : list (string * list string * option string) := [\n' + ';\n'.join(
     '  (%s, [%s], %s)' % (cs(e), '; '.join(cs(v[0]) for v in enums[e][1]), ('Some ' + cs(manual[e])) if isinstance(manual.get(e), str) else 'None') for e in unit_enums) + '\n].')
+out.append('(* fields whose map type does not iterate in key order (HashMap) *)')
+out.append('Definition repo_unordered_maps : list string := [%s].' % '; '.join(cs(x) for x in sorted(set(unordered))))
 text = '\n'.join(out) + '\n'
 path = os.path.join(ROOT, 'coq', 'gen', 'Schema_repo.v')
 if not os.path.exists(path) or open(path).read() != text:
